@@ -541,7 +541,7 @@ def finishDelete (sch : Schema) (o : ObjId) (st : St) : Res :=
   let r := st.store.row o
   let curStatus := r.status
   let curSavePos := r.savePos
-  if curStatus.isDel then .err .assertionError st else                      -- (cannot happen: the call returned at its start)
+  if curStatus.isDel then .ok st else                                       -- a nested _delete_ of this object (cascade cycle) already finished: return
   let (s1, keys, missing) := popKeys sch o st.store
   let e := fun (ks : List IdxKey) => Undo.del o curStatus curSavePos ks
   if missing then .err .keyError ((st.setStore s1).log (e keys)) else
